@@ -20,4 +20,7 @@ def boundary_bytes(rng, n):
     return rbytes(rng, n)
 
 def budget(tier, quick, thorough):
+    """number of cases for a tier; "deep" = a quick run on a tree whose source differs from the pinned one"""
+    if tier == "deep":
+        return max(quick, min(thorough, quick * 3))
     return thorough if tier == "thorough" else quick
